@@ -130,8 +130,36 @@ func (C07) OnCall(e *sim.Env, c *sim.Call) {
 		// process death: nothing of this block commits. The statement promises a burn for valid evidence.
 		cls := panicBeginClass(c.Panic)
 		valid := false
+		// queued burns run before the evidence: apply their status consequences to the model first
+		for a, sev := range pre.Burns {
+			if v, ok := model[a]; ok && v.status != 0 {
+				p := int64(0)
+				if v.status == 2 {
+					p = powerOf(v.tokens)
+				}
+				amt := truncMul(p, sev)
+				if amt.Cmp(v.tokens) > 0 {
+					amt = new(big.Int).Set(v.tokens)
+				}
+				v.tokens.Sub(v.tokens, amt)
+				if v.tokens.Cmp(bi(cp.Min)) < 0 {
+					v.tokens, v.status = new(big.Int), 0
+				}
+			}
+		}
+		missed := map[string]bool{}
+		for _, vt := range c.Entry.Begin.Votes {
+			if !vt.Signed {
+				missed[vt.Addr] = true
+			}
+		}
 		for _, ev := range c.Entry.Begin.Evidence {
 			k := evClass(model, pre, cp, ev, c.Time)
+			if k == "valid" && missed[ev.Addr] {
+				// a downtime slash earlier in this very block may have force-unstaked the offender; without a
+				// response there is no way to tell, so this death is not judged
+				k = "uncertain"
+			}
 			e.Count("c07.fatal_evidence." + k)
 			if k == "valid" {
 				valid = true
